@@ -83,11 +83,13 @@ def shape_keys(rng, shape):
     raise ValueError(shape)
 
 
-def gen_collapse(rng, shape="collapse"):
+def gen_collapse(rng, shape="collapse", prefix=b""):
     """two borders under an interior root, one of them down to its last one or two keys: removing them unlinks the
     border, collapses the interior node and promotes the sibling to layer root (atomic_set_root on a node that
     another thread may hold locked) while that sibling is being written"""
-    keys = [bytes([0x30 + 2 * i]) for i in range(20)]
+    if shape.endswith("-l1"):
+        prefix = b"prefix88"            # the same structure one trie layer down (the layer's root is an interior node)
+    keys = [prefix + bytes([0x30 + 2 * i]) for i in range(20)]
     st = b"s"
     setup = [(k, b"i" + k[-1:]) for k in keys]
     left = rng.random() < 0.6
@@ -120,17 +122,23 @@ def gen_collapse(rng, shape="collapse"):
     return sc
 
 
-def gen_collapse_scan(rng, shape="collapse-scan"):
+def gen_collapse_scan(rng, shape="collapse-scan", prefix=b""):
     """a scan standing between two borders while the one it just left is emptied and unlinked and keys at or
     below the ones already delivered are (re)inserted: they land in the next border, whose range grew to the left"""
-    keys = [bytes([0x30 + 2 * i]) for i in range(20)]
+    if shape.endswith("-l1"):
+        prefix = b"prefix88"
+    keys = [prefix + bytes([0x30 + 2 * i]) for i in range(20)]
     st = b"s"
     setup = [(k, b"i" + k[-1:]) for k in keys]
+    if prefix:
+        setup = [(b"a", b"ia")] + setup + [(b"z", b"iz")]
     keep = rng.choice([1, 1, 2])
     removed = keys[keep:rng.choice([7, 8])]
     victims = keys[:keep]
     t1 = ["rem %s %s" % (hx(st), hx(k)) for k in victims]
-    back = rng.choice([victims[0], victims[-1], victims[0] + b"a", bytes([victims[0][0] - 1])])
+    back = rng.choice([victims[0], victims[-1], victims[0] + b"a", victims[0][:-1] + bytes([victims[0][-1] - 1])])
+    if prefix and rng.random() < 0.5:
+        t1 = t1[:1]                     # only unlink / collapse, no re-insert
     t1.append("put %s %s %s 1 0" % (hx(st), hx(back), hx(b"again")))
     mode = rng.random()
     if mode < 0.6:
@@ -231,6 +239,11 @@ def catalogue():
     mk("emptied-scan-vs-insert", [b"a", b"b"], [[ALL], [P(b"q", b"new")]], removed=[b"a", b"b"], extra_finals=[b"q"])
     mk("emptied-getmiss-vs-insert", [b"a", b"b"], [[G(b"q")], [P(b"q", b"new")]], removed=[b"a", b"b"], extra_finals=[b"q"])
     mk("emptied-scan-then-insert", [b"a"], [[ALL, P(b"q", b"new")]], removed=[b"a"], extra_finals=[b"q"])
+    # the same one trie layer down: the root of the next layer is an interior node that collapses under the scan
+    two1 = [b"prefix88" + k for k in two]
+    for nm, rd in (("scan", ALL), ("cursor", IALL), ("cursor-rev", IREV)):
+        mk("l1-%s-vs-collapse" % nm, [b"a"] + two1 + [b"z"], [[rd], [R(two1[0])]], removed=two1[1:8])
+        mk("l1-%s-vs-collapse-right" % nm, [b"a"] + two1 + [b"z"], [[rd], [R(two1[19])]], removed=two1[9:19])
     # scan standing between two borders while the left one is emptied and unlinked (F8)
     mk("scan-vs-unlink-reinsert", two, [["scan %s %s IN %s IN 0 0" % (S, hx(two[0]), hx(two[15]))],
                                         [R(two[0]), P(two[0], b"again")]], removed=two[1:8])
@@ -343,8 +356,8 @@ def run_once(binary, scen_text, workdir, idx, timeout=60):
             t = ln.split(" ")
             r.final[(t[1], t[2])] = " ".join(t[3:])
         elif ln.startswith("FSCAN "):
-            t = ln.split(" ", 3)
-            r.fscan[t[1]] = t[3] if len(t) > 3 else ""
+            t = ln.split(" ", 2)
+            r.fscan[t[1]] = t[2] if len(t) > 2 else ""
         elif ln.startswith("LOCKBITS "):
             t = ln.split(" ")
             r.lockbits[t[1]] = t[2]
@@ -939,7 +952,8 @@ def run_conc_property(res, tag, want, shapes, kinds, scans, budget_quick, budget
                 shape_counts["catalogue"] = shape_counts.get("catalogue", 0) + n
                 collect_chain(sc, runs, (120 if res.tier == "quick" else 600) if strat == "preempt1" else 30)
     n_scen = 2 if res.tier == "quick" else 8
-    special = {"collapse": gen_collapse, "collapse-scan": gen_collapse_scan}
+    special = {"collapse": gen_collapse, "collapse-scan": gen_collapse_scan, "collapse-l1": gen_collapse,
+               "collapse-scan-l1": gen_collapse_scan}
     for shape in shapes:
         for j in range(n_scen):
             if shape in special:
